@@ -5,6 +5,7 @@ package lang
 
 import (
 	"github.com/lmorg/murex/lang/state"
+	"github.com/lmorg/murex/utils/verifhook"
 )
 
 //////////////////
@@ -44,6 +45,7 @@ func runModeNormal(procs *[]Process) (exitNum int) {
 			}
 		}
 
+		verifhook.Yield("lang.runModeNormal.spawn")
 		go executeProcess(&(*procs)[i])
 	}
 
@@ -60,6 +62,7 @@ func runModeTry(procs *[]Process, tryErr bool) (exitNum int) {
 	}
 
 	for i := 0; i < len(*procs); i++ {
+		verifhook.Yield("lang.runModeTry.spawn")
 		go executeProcess(&(*procs)[i])
 		next := i + 1
 
@@ -108,6 +111,7 @@ func runModeTryPipe(procs *[]Process, tryPipeErr bool) (exitNum int) {
 	}
 
 	for i := 0; i < len(*procs); i++ {
+		verifhook.Yield("lang.runModeTryPipe.spawn")
 		go executeProcess(&(*procs)[i])
 		waitProcess(&(*procs)[i])
 
